@@ -64,6 +64,8 @@ type op struct {
 	quiesce     bool
 	canPark     bool // channel op: blocks by parking (visible to others)
 	site        string // innermost non-shim caller (captured in trace mode only)
+	panicVal    any    // the effect panicked (e.g. atomic.Value.Store of an inconsistent type): re-raised in the owning thread
+	panicked    bool
 	parked      bool
 }
 
@@ -474,7 +476,15 @@ func (e *Exec) schedule(from *thread, exiting bool) {
 		next.pending = nil
 		var partner *thread
 		e.partner = nil
-		o.exec()
+		func() {
+			// the effect runs in scheduler context; a panic of the real primitive belongs to the thread that issued the operation
+			defer func() {
+				if r := recover(); r != nil {
+					o.panicVal, o.panicked = r, true
+				}
+			}()
+			o.exec()
+		}()
 		partner = e.partner
 		if e.pruned {
 			bail("pruned")
@@ -533,6 +543,9 @@ func (e *Exec) point(t *thread, o *op) {
 		o.site = callerSite()
 	}
 	e.schedule(t, false)
+	if o.panicked {
+		panic(o.panicVal)
+	}
 }
 
 // callerSite: innermost frame outside this package, e.g. "mr.(*onceChan).write".
@@ -562,6 +575,14 @@ func callerSite() string {
 
 func (o *op) where() string {
 	if o.site != "" {
+		if o.isSend {
+			// what is being sent tells WHY a thread is stuck (e.g. which recovered panic)
+			v := fmt.Sprintf("%v", o.val)
+			if len(v) > 60 {
+				v = v[:60]
+			}
+			return o.desc + "@" + o.site + "(" + strings.ReplaceAll(v, " ", "-") + ")"
+		}
 		return o.desc + "@" + o.site
 	}
 	return o.desc
